@@ -155,11 +155,15 @@ def mc(ctx, st, q, invariants, properties, defects):
         kw = dict(Tab='TabU6', Ent=6, Cap=3, PerSender=2, MaxLast=2, MaxH=2, MaxNow=2, MaxBlk=2, LevelFee='TRUE', TierAt=2)
         if defects == 'AllDefects':
             # C22: the action property RejectKeeps re-evaluates every submission on every transition (more than 4 CPU-hours
-            # on the configuration above); all six defect kinds are checked on the quick universe instead
+            # on the configuration above, 2 CPU-hours with all six defect kinds on the quick universe under -coverage);
+            # the exhaustive run keeps two defect kinds on the quick universe, the GEN-all tables enumerate all six
             kw.update(MaxNow=1, MaxBlk=1)
+            defects = 'TwoDefects'
     ctx.write_cfg(st, 'mc.cfg', cfg_text(view='view', invariants=invariants, properties=properties, Defects=defects,
                                          MaxRm=1, EmitOn='FALSE', **kw))
-    r = ctx.tlc_mc('Mempool_MC', 'mc.cfg', workers=4, timeout=18000, stage=st, coverage=not q)
+    # -coverage multiplies the cost of the action property RejectKeeps (hours): the C22 run goes without it; the same
+    # actions are coverage-checked by the C21 / C23 thorough runs
+    r = ctx.tlc_mc('Mempool_MC', 'mc.cfg', workers=4, timeout=18000, stage=st, coverage=(not q) and 'RejectKeeps' not in properties)
     # TLC reports the disjuncts of Next by source position. Switched off on purpose in exhaustive runs: Reorg (node-rig
     # generation only), GetTxList (no state change; C23OK quantifies over all requests), defective submissions when the
     # property under check has none.
@@ -181,7 +185,7 @@ def concurrent_leg(ctx, b, q):
     """C21 'schedules': recorded concurrent runs validated by Mempool_Trace (invariants at every linearised step)."""
     import json
     # every TLC call waits for a machine-wide slot: the quick tier keeps their number small
-    confs = [(3, 2, 2)] if q else [(4, 2, 3), (2, 1, 1), (3, 3, 2), (5, 2, 4)]
+    confs = [(3, 2, 2)] if q else [(4, 2, 3), (2, 1, 1)]
     last_ok = None
     for i, (cap, per, last) in enumerate(confs):
         opts = dict(n=4 if q else 6, workers=6, ops=30 if q else 60, phases=3, cap=cap, persender=per, maxlast=last)
@@ -228,7 +232,7 @@ def node_leg(ctx, b, st, q, label, want=('Reorg',), **kw):
     c = dict(Cap=3, PerSender=2, MaxLast=2, NodeRig='TRUE', SubW=1, MaxRm=1, MaxH=3, MaxNow=1)
     c.update(kw)
     ctx.write_cfg(st, name, cfg_text(**c))
-    keep = 24 if q else 160
+    keep = 24 if q else 80
     bs = ctx.tlc_sim('Mempool_MC', name, num=keep * 4, depth=12 if q else 16, stage=st, keep_init=True,
                      seed=ctx.seed * 10 + 7, timeout=3600)
 
@@ -246,7 +250,7 @@ def race_leg(ctx, b, q):
     transaction T) is replaced by a heavier sibling that also holds T. The rollback notice travels on the low-priority
     channel, so the pool may handle the sibling's EventAddBlock first; T must not be in the pool afterwards."""
     import json
-    for k in range(1 if q else 3):
+    for k in range(1 if q else 2):
         seed = ctx.seed * 10 + k
         rc, out = vlib.sh([b, 'race', '--seed', str(seed), '--prop', ctx.prop, '--tier', ctx.tier, '--opt', 'attempts=12,flooders=16'],
                           cwd=ctx.scratch, timeout=3600)
@@ -297,7 +301,7 @@ def run_c21(ctx, q, b, st):
                 'abstract action sequence')
     mc(ctx, st, q, C21_INV, ('BlockGone',), 'NoDefects')
     n = 200 if q else 700
-    confs = [(3, 2, 2), (2, 1, 1)] if q else [(3, 2, 2), (2, 1, 1), (2, 2, 3), (3, 1, 2), (4, 2, 2), (1, 1, 1)]
+    confs = [(3, 2, 2), (2, 1, 1)] if q else [(3, 2, 2), (2, 1, 1), (2, 2, 3), (4, 2, 2)]
     for i, (cap, per, last) in enumerate(confs):
         name = 'gen_c21_%d.cfg' % i
         ctx.write_cfg(st, name, cfg_text(Cap=cap, PerSender=per, MaxLast=last))
@@ -305,7 +309,7 @@ def run_c21(ctx, q, b, st):
         preplay(ctx, b, bs, dict(rig='bare'), label='c21-%d' % i)
     # every bounded history on the small universe
     ctx.write_cfg(st, 'all_c21.cfg', all_cfg('hist', Tab='TabU5', Cap=2, PerSender=1, MaxLast=1, MaxH=2, MaxNow=1, MaxBlk=1,
-                                             MaxRm=1, MaxOps=3 if q else 4))
+                                             MaxRm=1, MaxOps=3))
     allb = ctx.tlc_genall('Mempool_All', 'all_c21.cfg', stage=st, timeout=7200)
     preplay(ctx, b, allb, dict(rig='bare'), label='c21-all')
     ctx.extra['exhaustive_small_config'] = dict(cfg='all_c21.cfg (Mode=hist)', behaviours=len(allb))
@@ -333,7 +337,7 @@ def run_c22(ctx, q, b, st):
     ctx.extra['exhaustive_small_config'] = dict(cfg='all_c22_*.cfg (Mode=admit)', behaviours=total)
     n = 200 if q else 700
     for i, (cap, per, lvl, tier) in enumerate([(3, 2, 'TRUE', 2)] if q else
-                                              [(3, 2, 'TRUE', 2), (2, 1, 'FALSE', 2), (3, 1, 'TRUE', 1), (4, 2, 'TRUE', 3)]):
+                                              [(3, 2, 'TRUE', 2), (2, 1, 'FALSE', 2), (3, 1, 'TRUE', 1)]):
         name = 'gen_c22_%d.cfg' % i
         ctx.write_cfg(st, name, cfg_text(Cap=cap, PerSender=per, LevelFee=lvl, TierAt=tier, Defects='AllDefects', MaxRm=1, SubW=4))
         bs = ctx.tlc_sim('Mempool_MC', name, num=n, depth=16 if q else 22, stage=st, keep_init=True, seed=ctx.seed * 10 + i, timeout=3600)
@@ -350,12 +354,12 @@ def run_c23(ctx, q, b, st):
                 'pool entries; distinct by abstract action sequence')
     mc(ctx, st, q, C21_INV + ('C23OK',), (), 'NoDefects')
     ctx.write_cfg(st, 'all_c23.cfg', all_cfg('list', Tab='TabU6', Cap=3, PerSender=3, MaxLast=2, MaxH=2, MaxNow=1, MaxBlk=1,
-                                             MaxRm=1, MaxOps=3 if q else 4))
+                                             MaxRm=1, MaxOps=3))
     allb = ctx.tlc_genall('Mempool_All', 'all_c23.cfg', stage=st, timeout=7200)
     preplay(ctx, b, allb, dict(rig='bare'), label='c23-all')
     ctx.extra['exhaustive_small_config'] = dict(cfg='all_c23.cfg (Mode=list)', behaviours=len(allb))
     n = 250 if q else 700
-    for i, (cap, per) in enumerate([(4, 3)] if q else [(4, 3), (3, 2), (5, 4), (2, 2)]):
+    for i, (cap, per) in enumerate([(4, 3)] if q else [(4, 3), (3, 2), (2, 2)]):
         name = 'gen_c23_%d.cfg' % i
         ctx.write_cfg(st, name, cfg_text(Cap=cap, PerSender=per, QueryOn='TRUE', SubW=5, MaxRm=1, MaxH=3, MaxNow=2))
         bs = ctx.tlc_sim('Mempool_MC', name, num=n, depth=24 if q else 30, stage=st, keep_init=True, seed=ctx.seed * 10 + i, timeout=3600)
